@@ -268,6 +268,21 @@ func runCheck(args []string, opts *checkOpts) int {
 		all = append(all, obs...)
 		gens = append(gens, g)
 	}
+	if len(prop.OutOfScope) > 0 {
+		var keep []*Oblig
+		for _, o := range all {
+			drop := false
+			for _, sub := range prop.OutOfScope {
+				if strings.Contains(o.Name, sub) {
+					drop = true
+				}
+			}
+			if !drop {
+				keep = append(keep, o)
+			}
+		}
+		all = keep
+	}
 	solveAll(all, outDir, timeout, 12)
 	known := loadKnown()
 	var knownLines []string
